@@ -14,7 +14,7 @@ GEN = [_gb.gen_bases]            # the model reads mp_bases[].chars_per_bit_exac
 LEAN_MODULES = ["MpirProofs.Props.C13_str"]
 THEOREMS = ["Mpir.MpfStr." + t for t in """
     powHigh_bound convert_zero convert_err convert_exact_if_fits set_str_spec parse_sound mpf_set_str_correct
-    withinUnit_iff getOk_iff roundUp_value get_digits_integer_exact
+    withinUnit_iff getOk_iff roundUp_value get_digits_integer_exact scaledInt_bound
 """.split()]
 PINS = [("mpf/set_str.c", None), ("mpf/get_str.c", None), ("gmp-impl.h", "MPF_SIGNIFICANT_DIGITS")]
 TRUSTED = ["hand-written model lean/Mpir/Model/MpfStr.lean of mpf_set_str / mpf_get_str (accepted syntax statement by statement; conversion at value "
